@@ -65,16 +65,20 @@ def cases(tier, seed):
                 for ztype, variant in itertools.product(
                         ("num", "str"), ("z", "multi", "yerr", "c", "grid")):
                     j += 1
-                    if tier == "quick" and j % 4:
+                    hk = [kind, nx, nz, mask, ztype, variant]
+                    if tier == "quick" and core.pick(hk + ["thin"], 4):
                         continue
                     if variant == "multi" and ztype == "str":
                         continue
-                    inf = (j % 5 == 0)
+                    inf = core.pick(hk + ["inf"], 5) == 0
                     for t in range(1 if tier == "quick" else 3):
-                        # (round-robin over the option sets by a counter of
-                        # its own: every set is used, whatever the thinning)
+                        # (the option set is picked by a hash of the rest of
+                        # the case, so that it is not in lock-step with any
+                        # of the other dimensions or with the thinning)
                         sel += 1
-                        o = optsets[sel % len(optsets)]
+                        o = optsets[int(core.jhash(
+                            [kind, nx, nz, mask, ztype, variant, t, sel]),
+                            16) % len(optsets)]
                         if o.get("colormap_log") and (ztype == "str"
                                                       or nz < 2):
                             # (nothing to take the logarithm of: string
@@ -87,9 +91,10 @@ def cases(tier, seed):
                             o = {k: v for k, v in o.items() if k != "colors"}
                         yield {"kind": kind, "nx": nx, "nz": nz, "mask": mask,
                                "inf": inf, "ztype": ztype, "variant": variant,
-                               "grid": ["row", "col", "both"][j % 3]
+                               "grid": ["row", "col", "both"][
+                                   core.pick(hk + ["grid"], 3)]
                                if variant == "grid" else None, "opts": o,
-                               "stored": (j // 4 + t) % 3}
+                               "stored": core.pick(hk + ["stored", t], 3)}
         # many series: the legend -> colour bar switch
         for nz in ((10, 11) if tier == "quick" else (9, 10, 11, 12)):
             for o in ({}, {"colors": True}, {"colors": True, "legend": True}):
@@ -106,7 +111,8 @@ def cases(tier, seed):
             ("z", "multi", "grid", "single")):
         for o in ({}, {"colors": True}, {"stacked": True}):
             j += 1
-            if tier == "quick" and j % 2:
+            if tier == "quick" and core.pick(
+                    ["hist", nz, bins, holes, variant, o], 2):
                 continue
             if o.get("colors") is True and variant in ("multi", "single"):
                 # (no z coordinate to map colours from)
@@ -128,11 +134,13 @@ def cases(tier, seed):
                        "nonpositive": True}):
                 for grid in (None, "col", "both"):
                     j += 1
-                    if tier == "quick" and j % 3:
+                    hk = ["heat", nx, ny, mask, o, grid]
+                    if tier == "quick" and core.pick(hk + ["thin"], 3):
                         continue
                     # (the order the variable's dimensions are stored in)
                     yield {"kind": "heatmap", "nx": nx, "ny": ny, "mask": mask,
-                           "grid": grid, "opts": o, "order": (j // 3) % 3}
+                           "grid": grid, "opts": o,
+                           "order": core.pick(hk + ["order"], 3)}
     yield {"kind": "auto_heatmap", "opts": {}}
 
 
